@@ -430,6 +430,7 @@ impl Run {
             failure_persistence: None,
             max_shrink_iters: 4000,
             max_global_rejects: 65536,
+            max_local_rejects: u32::MAX,
             rng_seed: RngSeed::Fixed(self.part_seed(part)),
             ..Config::default()
         };
